@@ -33,6 +33,11 @@ func (d *DiskKV) replayLogs() error {
 		if err := d.decodeEntry(entry, mut); err != nil {
 			return fmt.Errorf("error decoding entry to mutation at index %d: %w", i, err)
 		}
+		if mut.GetType() == proto.MutationType_UNKNOWN_TYPE {
+			// every logged mutation carries a type; an entry that decodes to none is damaged
+			// (an empty payload has checksum 0 and would otherwise be skipped silently)
+			return fmt.Errorf("error decoding entry to mutation at index %d: unknown mutation type, possibly corrupted log", i)
+		}
 		if err := d.handleMutation(mut); err != nil {
 			// a mutation rejected with a prefix conflict is rolled back right after it was appended;
 			// if the process stopped in between, the entry is still in the log and was a no-op
